@@ -175,7 +175,15 @@ fn enumerate(thorough: bool) -> Vec<Case> {
                         }
                         let mut decos = vec![Deco::default(); n];
                         decos[pos] = Deco { helper, before, after };
-                        push(kind, if helper % 2 == 0 { 0 } else { 4 }, decos, false, &mut cases);
+                        push(kind, if helper % 2 == 0 { 0 } else { 4 }, decos.clone(), false, &mut cases);
+                        // a nested helper under every item-level argument list (the macro sees both)
+                        if helper != 0 && before == 0 && after == 0 {
+                            for a in 1..ITEM_ARGS.len() {
+                                if a != 4 || helper % 2 == 0 {
+                                    push(kind, a, decos.clone(), false, &mut cases);
+                                }
+                            }
+                        }
                     }
                 }
             }
